@@ -29,6 +29,9 @@ def parseAction (s : String) : Option Action :=
   | ["E", r, p] => do pure (.ctxExit (r == "1" || r == "c") (← parseList p))
   | ["K", p] => do pure (.cancelJoiner (← parseList p))
   | ["N", k, p] => do pure (.nextDone (← k.toNat?) (← parseList p))
+  | ["R", p] => do pure (.cancelRem (← parseList p))
+  -- a member's task is handed to the group (or to another group) again: an add of an id that exists
+  | ["A", i, _] => do pure (.spawn (← i.toNat?) false [])
   | _ => none
 
 def obsStr : Obs → String
